@@ -240,6 +240,30 @@ def make_tasks(W, quick, rng):
         tasks.append(dict(name='twin/logic-effects/%s/%s/w%d' % (op, a, W), W=W, bind={'y': int(a == 'true')},
                           csrc=SPRE + 'empty @is_you(int x) { sleep((flip(x) %s %s) is int); sleep(g); sleep((%s %s flip(x)) is int); sleep(g); sleep(((10 / x == 1) %s %s) is int); }\n' % (op, a, a, op, op, a),
                           vsrc=SPRE + 'empty @is_you(int x, int y) { bool t = y is bool; sleep((flip(x) %s t) is int); sleep(g); sleep((t %s flip(x)) is int); sleep(g); sleep(((10 / x == 1) %s t) is int); }\n' % (op, op, op)))
+    # a constant argument of !truth_is_defeat, directly in a try body and inside a defeat function, under real and virtualised defeat
+    for a, forms in (('true', ('true', 'KT', '1 < 2', 'not false', '(1 is bool)')), ('false', ('false', 'KF', '2 < 1', 'not true', '(0 is bool)'))):
+        for form, h in itertools.product(forms, ('undo', 'stop')):
+            tasks.append(dict(name='twin/defeat-const/%s/%s/w%d' % (form.replace(' ', ''), h, W), W=W, bind={'y': int(a == 'true')},
+                              csrc="const bool KT = true;\nconst bool KF = false;\nempty !cd() { write('d'); !truth_is_defeat(%s); write('e'); }\n"
+                                   "empty @is_you(int x) { try { write('a'); if (x > 9) { !cd(); } write('b'); if (x < -9) { !truth_is_defeat(%s); } write('f'); } %s { write('c'); } "
+                                   "try { write('A'); !cd(); write('B'); } %s { write('C'); } write('.'); }\n" % (form, form, h, 'undo' if h == 'stop' else 'stop'),
+                              vsrc="bool t = false;\nempty !cd() { write('d'); !truth_is_defeat(t); write('e'); }\n"
+                                   "empty @is_you(int x, int y) { t = y is bool; try { write('a'); if (x > 9) { !cd(); } write('b'); if (x < -9) { !truth_is_defeat(t); } write('f'); } %s { write('c'); } "
+                                   "try { write('A'); !cd(); write('B'); } %s { write('C'); } write('.'); }\n" % (h, 'undo' if h == 'stop' else 'stop')))
+    # array literals whose elements are constants, built over stack memory that an earlier (released) array left dirty
+    DIRTY = "empty scribble() { byte[] junk = [255, 255, 255, 255, 255, 255]; int[] j2 = [-1, -1, -1]; bool[] j3 = [true, true, true, true, true, true, true, true, true]; }\n"
+    for a in ('true', 'false'):
+        cf = ', '.join([a] * 3)
+        c9 = ', '.join([a] * 8)
+        tasks.append(dict(name='twin/bool-literal-dirty/%s/w%d' % (a, W), W=W, bind={'y': int(a == 'true')},
+                          csrc=DIRTY + "int use() { bool[] seen = [%s]; return (seen[0] is int) + (seen[1] is int) * 2 + (seen[2] is int) * 4; }\n"
+                               "empty @is_you(int x) { scribble(); bool[] s = [%s]; sleep(s[0] is int); sleep(s[2] is int); scribble(); sleep(use()); scribble(); bool[] m = [%s, x > 0]; sleep(m[7] is int); sleep(m[8] is int); sleep(m[0] is int); }\n" % (cf, cf, c9),
+                          vsrc=DIRTY + "bool f = false;\nint use() { bool[] seen = [f, f, f]; return (seen[0] is int) + (seen[1] is int) * 2 + (seen[2] is int) * 4; }\n"
+                               "empty @is_you(int x, int y) { f = y is bool; scribble(); bool[] s = [f, f, f]; sleep(s[0] is int); sleep(s[2] is int); scribble(); sleep(use()); scribble(); bool[] m = [f, f, f, f, f, f, f, f, x > 0]; sleep(m[7] is int); sleep(m[8] is int); sleep(m[0] is int); }\n"))
+    for c in (0, 1, 255):
+        tasks.append(dict(name='twin/int-literal-dirty/%d/w%d' % (c, W), W=W, bind={'y': c},
+                          csrc=DIRTY + "empty @is_you(int x) { scribble(); int[] s = [%d, %d, x]; sleep(s[0]); sleep(s[1]); scribble(); byte[] b = [%d, %d, %d]; sleep(b[0]); sleep(b[2]); }\n" % (c, c, c, c, c),
+                          vsrc=DIRTY + "empty @is_you(int x, int y) { scribble(); int[] s = [y, y, x]; sleep(s[0]); sleep(s[1]); scribble(); byte q = y is byte; byte[] b = [q, q, q]; sleep(b[0]); sleep(b[2]); }\n"))
     # boolean constants
     for op in ('and', 'or', '==', '!='):
         for a in ('true', 'false'):
